@@ -116,8 +116,11 @@ def evaluate(case):
 def _names(draw, n):
     used = []
     while len(used) < n:
-        if draw(st.integers(0, 5)) == 0:
+        k0 = draw(st.integers(0, 6))
+        if k0 == 0:
             nm = draw(st.sampled_from(BAD_NAMES))
+        elif k0 == 1:
+            nm = draw(st.sampled_from(["Roe", "Doe", "Poe", "Cox", "Lee"]))  # the shortest names the rule admits
         else:
             nm = "".join(draw(st.lists(st.sampled_from(SYL), min_size=2, max_size=3))).capitalize()
         if len(nm) > 1 and all(nm not in u and u not in nm for u in used):
@@ -165,7 +168,8 @@ def scenario_markup(draw):
             nm = draw(st.sampled_from([c["pl"], c["df"]]))
             pin = c["page"] + draw(st.integers(0, 50))
             if kind == "mention":
-                s = f"In {it(nm, draw(st.sampled_from(['', ',', '.', ', ', ';'])))} the court {draw(st.sampled_from(['held', 'agreed', 'said']))} so."
+                wrap = draw(st.sampled_from([("In ", " the"), ("In ", " the"), ("The rule of (", ") was; the"), ("See “", "” where the"), ("in\u00a0", "\u00a0the")]))
+                s = f"{wrap[0]}{it(nm, draw(st.sampled_from(['', '', ',', '.', ', ', ';'])))}{wrap[1]} court {draw(st.sampled_from(['held', 'agreed', 'said']))} so."
             elif kind == "ref":
                 s = f"See {nm if draw(st.booleans()) else it(nm)} at {pin}."
             elif kind == "id":
